@@ -266,6 +266,9 @@ inductive Level where
   | nf          -- equal rational-function normal forms: equal at every real point (`C11.check_sound`)
   | points      -- equal exact values at the sample points (rational + abs max min sign chi floor ceil)
   | upoints     -- equal at the sample points with non-rational operators uninterpreted
+  | thick       -- (assigned by the driver, never by `cmpExpr` / `cmpFlat`) undecided AND thick (interval) constants on one side:
+                --   a comparison through the midpoints of thick constants refutes nothing (the library may legitimately fold
+                --   `max(max(-0.875,[-1.06,21.4]),11.5)` into `[11.5,21.4]`), so this is counted, not reported
   | undecided   -- nothing could be evaluated
 deriving DecidableEq, Repr
 
@@ -274,10 +277,11 @@ def Level.tag : Level → String
   | .nf => "identical-normal-form"
   | .points => "same-at-exact-points"
   | .upoints => "same-at-uninterpreted-points"
+  | .thick => "undecided-thick-constants"
   | .undecided => "undecided"
 
 def Level.rank : Level → Nat
-  | .tree => 0 | .nf => 1 | .points => 2 | .upoints => 3 | .undecided => 4
+  | .tree => 0 | .nf => 1 | .points => 2 | .upoints => 3 | .thick => 4 | .undecided => 5
 
 def Level.weakest (a b : Level) : Level := if a.rank ≤ b.rank then b else a
 
